@@ -59,7 +59,8 @@ def skip_then(op_name, op, must_rebuild, prop, ext=None, extra=None, why=""):
         pr.clear_log()
         r = pr.run("t")
         if r.rc != 0:
-            return {"property": prop, "expected": "exit 0 after `%s`" % op_name, "observed": "exit %s" % r.rc, "zinoma": r.brief()}
+            pl = list(prop) if isinstance(prop, (list, tuple)) else [prop]
+            return {"property": pl + (["C04"] if r.timed_out else []), "expected": "exit 0 after `%s`" % op_name, "observed": "exit %s%s" % (r.rc, " (killed after the time-out: it never terminated)" if r.timed_out else ""), "zinoma": r.brief()}
         if must_rebuild and not _ran(pr):
             return {"property": prop, "expected": "after `%s` the script runs again%s" % (op_name, why), "observed": "skipped", "zinoma": r.brief()}
         if not must_rebuild and _ran(pr):
@@ -432,18 +433,27 @@ def in_and_out_case(pr):
 
 def overlapping_resources_case(pr):
     """the same file is reachable through two resources of one target (a directory and a path inside it; X.output
-    plus the directory that contains it): it is one file of the set, and an unchanged tree is skipped"""
+    plus the directory that contains it): it is one file of the set - an unchanged tree is skipped, and removing
+    another file is noticed"""
     pr.write("src/a.txt", "a")
+    pr.write("src/extra.txt", "e")
     pr.write("src/sub/b.txt", "b")
     prod = _t([{"paths": ["src"]}], [{"paths": ["gen/out.txt"]}], name="prod", body="mkdir -p gen && cat src/a.txt > gen/out.txt")
     cons = _t([{"paths": ["src", "src/sub"]}, {"paths": ["gen"]}, "prod.output"], None, name="cons")
     pr.write("zinoma.yml", yml({"prod": prod, "cons": cons}))
-    if not _run_ok(pr, "cons"):
-        return None
+    _run_ok(pr, "cons")
     pr.clear_log()
     r = pr.run("cons")
+    c03 = None
     if pr.log():
-        return {"property": "C03", "expected": "unchanged tree: prod and cons (whose resources overlap: src and src/sub, gen and prod.output) are skipped", "observed": "log %s" % pr.log(), "zinoma": r.brief()}
+        c03 = {"property": "C03", "expected": "unchanged tree: prod and cons (whose resources overlap: src and src/sub, gen and prod.output) are skipped", "observed": "log %s" % pr.log(), "zinoma": r.brief()}
+    pr.remove("src/extra.txt")           # a declared file that is listed once
+    pr.clear_log()
+    r = pr.run("cons")
+    if "s cons" not in pr.log():
+        return {"property": "C02", "expected": "src/extra.txt, a declared input of cons, was removed: cons runs (its other inputs are reachable through two resources each)", "observed": "log %s" % pr.log(), "zinoma": r.brief()}
+    if c03:
+        return c03
     pr.edit("src/sub/b.txt", "b2-longer")
     pr.clear_log()
     r = pr.run("cons")
@@ -945,6 +955,104 @@ def nested_project_state_case(pr):
     return None
 
 
+def output_of_outputless_producer_case(pr):
+    """`input: [gen.output]` where gen declares no output: gen is still a dependency - built first, in the closure"""
+    pr.write("zinoma.yml", yml({"gen": _t(None, None, name="gen", sleep=0.3), "use": _t(["gen.output"], None, name="use")}))
+    pr.write("lib/zinoma.yml", yml({"prepare": _t(None, None, name="prepare", sleep=0.3)}, name="lib"))
+    r = pr.run("use", timeout=30)
+    log = pr.log()
+    if r.rc != 0 or "e gen" not in log or "s use" not in log or log.index("e gen") > log.index("s use"):
+        return {"property": ["C09", "C13", "C01"], "expected": "use takes gen.output as input (gen declares no output): gen is in the closure and finishes before use starts", "observed": "exit %s log %s" % (r.rc, log), "zinoma": r.brief()}
+    return None
+
+
+def hidden_dirs_case(pr):
+    """files in hidden directories (other than .zinoma) below a declared path belong to the set like any other"""
+    pr.write("src/a.txt", "a")
+    pr.write("src/.config/settings.txt", "s1")
+    body = "mkdir -p public/.well-known public/.cache/x && echo 1 > public/index.html && echo 1 > public/.well-known/verify.html && echo 1 > public/.cache/x/p.html && echo 1 > public/.cache/keep.bin"
+    t = _t([{"paths": ["src"], "extensions": ["txt"]}], [{"paths": ["public"], "extensions": ["html"]}], body=body)
+    pr.write("zinoma.yml", yml({"t": t}))
+    _run_ok(pr, "t")
+    pr.clear_log()
+    _run_ok(pr, "t")
+    if _ran(pr):
+        return None
+    pr.edit("src/.config/settings.txt", "s2-longer")
+    pr.clear_log()
+    r = pr.run("t")
+    if not _ran(pr):
+        return {"property": ["C15", "C02"], "expected": "src/.config/settings.txt (a matching file in a hidden directory below the listed path) was rewritten: the script runs", "observed": "skipped", "zinoma": r.brief()}
+    r = pr.run("--clean")
+    for f in ("public/index.html", "public/.well-known/verify.html", "public/.cache/x/p.html"):
+        if pr.exists(f):
+            return {"property": ["C12", "C15"], "expected": "--clean removes every matching file beneath the declared output path, hidden directories included: %s" % f, "observed": "%s is still there" % f, "zinoma": r.brief()}
+    if not pr.exists("public/.cache/keep.bin"):
+        return {"property": "C12", "expected": "non-matching files survive", "observed": "public/.cache/keep.bin deleted"}
+    return None
+
+
+def symlink_alias_case(pr):
+    """a symbolic link to a regular file whose destination is listed too: the link is a member of the set of its own"""
+    pr.write("conf/main.conf", "m1")
+    pr.write("zinoma.yml", yml({"t": _t([{"paths": ["conf"]}], None)}))
+    _run_ok(pr, "t")
+    pr.symlink("main.conf", "conf/alias.conf")
+    pr.clear_log()
+    r = pr.run("t")
+    if not _ran(pr):
+        return {"property": ["C15", "C02"], "expected": "conf/alias.conf (a link to the regular file conf/main.conf) was added below the listed path: the set of denoted files changed, the script runs", "observed": "skipped", "zinoma": r.brief()}
+    pr.clear_log()
+    pr.run("t")
+    if _ran(pr):
+        return None
+    pr.remove("conf/alias.conf")
+    pr.clear_log()
+    r = pr.run("t")
+    if not _ran(pr):
+        return {"property": ["C15", "C02"], "expected": "conf/alias.conf was removed: the script runs", "observed": "skipped", "zinoma": r.brief()}
+    return None
+
+
+def xoutput_symlink_case(pr):
+    """the producer publishes its result as a link (latest.txt -> v1.txt) and re-points it: the consumer re-runs"""
+    pr.write("psrc/version", "1")
+    body = "mkdir -p gen && echo v1 > gen/v1.txt && echo v2 > gen/v2.txt && ln -sfn v$(cat psrc/version).txt gen/latest.txt"
+    prod = _t([{"paths": ["psrc"]}], [{"paths": ["gen"]}], name="prod", body=body)
+    cons = _t(["prod.output"], None, name="cons")
+    pr.write("zinoma.yml", yml({"prod": prod, "cons": cons}))
+    _run_ok(pr, "cons")
+    pr.clear_log()
+    _run_ok(pr, "cons")
+    if pr.log():
+        return None
+    pr.edit("psrc/version", "2")
+    pr.clear_log()
+    r = _run_ok(pr, "cons")
+    if "s cons" not in pr.log():
+        return {"property": ["C13", "C15"], "expected": "prod re-pointed gen/latest.txt (a link to a regular file, part of its declared output) from v1.txt to v2.txt: the consumer runs", "observed": "log %s" % pr.log(), "zinoma": r.brief()}
+    return None
+
+
+def unrelated_failure_does_not_lose_record_case(pr):
+    """T builds fine and takes a while to record its outputs; an unrelated target of the same invocation fails meanwhile:
+    T's successful build is still recorded, the next `zinoma T` skips it"""
+    pr.write("src/a.txt", "a")
+    t = _t([{"paths": ["src"]}], [{"paths": ["out.txt"]}, {"cmd_stdout": "sleep 1.5; cat out.txt"}], name="T", body="cat src/a.txt > out.txt")
+    x = _t(None, None, name="X", body="sleep 0.6; exit 1")
+    pr.write("zinoma.yml", yml({"T": t, "X": x}))
+    r = pr.run("T", "X", timeout=40)
+    if r.rc == 0 or "e T" not in pr.log():
+        return None
+    pr.clear_log()
+    r = pr.run("T", timeout=40)
+    if r.rc != 0:
+        return None
+    if "s T" in pr.log():
+        return {"property": "C18", "expected": "T was built successfully in an invocation in which the unrelated X failed: the next `zinoma T` on the untouched tree skips it", "observed": "T ran again", "zinoma": r.brief()}
+    return None
+
+
 def cases(seed, tier="quick"):
     C = lambda n, fn, what: Case("incr", n, fn, what)
     out = [
@@ -972,6 +1080,11 @@ def cases(seed, tier="quick"):
         C("non-utf8-names", non_utf8_names_case, "declared files with names that are not valid UTF-8"),
         C("skipped-build-with-service", skipped_build_with_service_case, "a skipped build whose service dependency has dependencies"),
         C("nested-project-state", nested_project_state_case, "a project nested below another target's input path"),
+        C("output-of-outputless-producer", output_of_outputless_producer_case, "X.output of a producer that declares no output"),
+        C("hidden-dirs", hidden_dirs_case, "hidden directories below a declared path"),
+        C("symlink-alias", symlink_alias_case, "a link to a file that is listed too"),
+        C("xoutput-symlink", xoutput_symlink_case, "a producer publishing its output as a link"),
+        C("unrelated-failure-keeps-record", unrelated_failure_does_not_lose_record_case, "an unrelated failure while T records its outputs"),
         C("dep-without-input", dep_without_input_case, "dependent of an always-executed target"),
         C("big-cmd-output", big_cmd_output_case, "a command printing 300 kB"),
         C("config-edit-between-runs", config_edit_between_runs_case, "input removed and restored in the project file around a failed build"),
